@@ -57,7 +57,7 @@ ATTEMPT_LIMIT = 40
 
 ORDERED_TAGS = ["int64", "int64", "int32", "int16", "int8", "uint8", "uint32", "Int64", "Int8", "UInt8",
                 "float64", "float64", "float32", "Float64",
-                "datetime64[ns]", "datetime64[ns, UTC]", "datetime64[ns, Europe/Berlin]", "timedelta64[ns]"]
+                "datetime64[ns]", "datetime64[ns, UTC]", "datetime64[ns, Europe/Berlin]", "timedelta64[ns]", "timedelta64[ns]"]
 STR_TAGS = ["str", "str", "object", "string"]
 OTHER_TAGS = ["bool", "boolean", "complex128"]
 
@@ -200,6 +200,11 @@ def st_field(draw, clean, name, tag=None, maxlen=4, allow_flags=True, role="colu
     else:
         lo, hi = sp.DTYPES[tag][1], sp.DTYPES[tag][2]
         t = draw(st.integers(max(lo + 12, -30), min(hi - 12, 40)))
+        zc = False
+        if draw(st.integers(0, 4)) <= (2 if k == "td" else 0) and lo + 12 <= 0 <= hi - 12:
+            # values at and next to zero: the zero duration, the number 0 - values that are falsy in Python
+            t = draw(st.sampled_from([0, 0, 0, 1, -1, 2]))
+            zc = True
         chain = [draw(st_ordered_check(tag, t, pos, clean, role)) for pos in range(n)]
     nullable = unique = False
     if allow_flags:
@@ -215,6 +220,8 @@ def st_field(draw, clean, name, tag=None, maxlen=4, allow_flags=True, role="colu
     f = {"name": name, "dtype": tag, "nullable": nullable, "unique": unique, "checks": chain}
     if pool:
         f["pool"] = pool
+    if k not in ("str", "bool", "complex") and zc:
+        f["zero_centred"] = True
     return f
 
 
@@ -234,7 +241,15 @@ def st_field_case(draw):
         f["nullable"], f["unique"] = True, False
         f["checks"] = list(f["checks"]) + [{"c": "vec_count", "k": max(1, size - draw(st.integers(0, 1)))}]
     case = {"kind": kind, "clean": clean, "field": f, "size": size, "seed": draw(st.integers(0, 2 ** 16))}
-    if sp.cls_of(f["dtype"]) in ("dt", "td") and draw(st.integers(0, 2)) <= 1:
+    if sp.cls_of(f["dtype"]) == "td" and draw(st.integers(0, 2)) == 0:
+        # the zero duration as a bound of the first check (the one the base strategy is built from)
+        d = draw(st.integers(1, 4))
+        first = draw(st.sampled_from([{"c": "ge", "v": 0}, {"c": "le", "v": 0}, {"c": "in_range", "lo": 0, "hi": d, "imin": True, "imax": True},
+                                      {"c": "in_range", "lo": -d, "hi": 0, "imin": True, "imax": True}, {"c": "gt", "v": 0}]))
+        f["checks"] = [first] + [c for c in f["checks"][1:2] if c["c"] in ("ne", "notin")]
+        f["zero_centred"] = True
+        f["unique"] = False
+    if sp.cls_of(f["dtype"]) in ("dt", "td") and not f.get("zero_centred") and draw(st.integers(0, 2)) <= 1:
         case["tscale"] = "ns"
         if draw(st.integers(0, 2)) <= 1:
             # a range a few nanoseconds wide and a membership check over instants inside it: every drawn element is
